@@ -114,7 +114,7 @@ func (e live) genRepl(r *core.PRNG, w *LiveWorld) LStep {
 	}
 	var cands []int
 	for _, en := range w.Ents {
-		if en.Pkg == 0 {
+		if en.Pkg == 0 && en.Kind != "zvar" {
 			cands = append(cands, en.ID)
 		}
 	}
@@ -328,6 +328,7 @@ type liveRun struct {
 
 	ent      map[int]*entState
 	S        int
+	zvals    map[int]map[int]bool // zero-initialised variables: possible current values
 	nLo, nHi map[int]int
 	instUp   bool
 	refsUp   map[string]bool // label -> captured
@@ -359,12 +360,15 @@ func (live) Execute(plan any, keep bool) *core.Result {
 	disk := core.NewSimDisk(files, hist)
 	disk.Rich, disk.Chunk, disk.Mute = p.Rich, p.Chunk, !keep
 	run := &liveRun{p: p, w: w, res: res, table: w.lineTable(), infra: map[string]bool{}, ent: map[int]*entState{},
-		nLo: map[int]int{}, nHi: map[int]int{}, refsUp: map[string]bool{}, seen: map[string]int{}}
+		zvals: map[int]map[int]bool{}, nLo: map[int]int{}, nHi: map[int]int{}, refsUp: map[string]bool{}, seen: map[string]int{}}
 	for pk := range w.Pkgs {
 		run.infra[w.pkgClause(pk)] = true
 	}
 	for i := range w.Ents {
 		run.ent[w.Ents[i].ID] = &entState{vers: map[int]bool{}}
+		if w.Ents[i].Kind == "zvar" {
+			run.zvals[w.Ents[i].ID] = map[int]bool{0: true}
+		}
 	}
 	run.h = core.NewHost(p.Seed, disk, hist, run.natives)
 	run.h.Budget = core.MaxBudget
@@ -479,7 +483,7 @@ func (run *liveRun) step(s *LStep, viaYield int) {
 		run.abs = append(run.abs, "cr")
 	case "bump":
 		if _, err := run.h.Call("main.bump", 0); err == nil {
-			run.S++
+			run.bumped()
 		} else {
 			run.poisoned = true
 		}
@@ -513,6 +517,29 @@ func (run *liveRun) anyUnknown() bool {
 		}
 	}
 	return false
+}
+
+// bumped: bump() ran: S, SA and every zero-initialised variable moved on by one.
+func (run *liveRun) bumped() {
+	run.S++
+	if len(run.loads) > 0 {
+		// bump() ran while a load was in progress: whether the load had already
+		// re-initialised the variable is not observable: unknown until the next clean load
+		for id := range run.zvals {
+			run.zvals[id] = nil
+		}
+		return
+	}
+	for id, vals := range run.zvals {
+		if vals == nil {
+			continue
+		}
+		nv := map[int]bool{}
+		for v := range vals {
+			nv[v+1] = true
+		}
+		run.zvals[id] = nv
+	}
 }
 
 func cutAt(n, permille int) int {
@@ -696,6 +723,17 @@ func (run *liveRun) load(s *LStep, depth int) {
 		run.ent[id].unknown = true
 		changed++
 	}
+	for id, vs := range sv.vers {
+		if vals, ok := run.zvals[id]; ok && len(vs) > 0 {
+			_ = vals
+			e := run.w.ent(id)
+			if clean && !sv.damaged[id] && e != nil && !sv.shaky[e.Pkg] {
+				run.zvals[id] = map[int]bool{0: true} // re-initialised
+			} else if vals != nil {
+				vals[0] = true // the load may or may not have reached the declaration
+			}
+		}
+	}
 	if sv.poison && err == nil {
 		// the VM accepted text the generator never wrote and that is not an
 		// entity declaration: nothing can be predicted any more
@@ -762,7 +800,7 @@ func (run *liveRun) repl(s *LStep, depth int) {
 		}
 		run.h.C.Inc("repl_redefine")
 	} else if err == nil {
-		run.S++
+		run.bumped()
 	} else if !core.IsBudget(err) && !run.poisoned {
 		run.fail("C17/keep", "repl-call", "bump() evaluated by the REPL failed: %s", firstLine(err.Error()))
 	}
@@ -811,6 +849,23 @@ func (run *liveRun) obs(kind string, id int, val goatlang.Value) {
 			}
 			run.fail(rule, kind, "%s of entity %d reports %d (version %d), but the versions it may have after the loads so far are %s", what, id, v, ver, st)
 		}
+	case "zv":
+		st := run.ent[id]
+		if st == nil || st.unknown {
+			run.setObs++
+			return
+		}
+		if run.zvals[id] == nil {
+			run.setObs++
+			return
+		}
+		if !run.zvals[id][v] {
+			run.fail("C17/reinit", "zero-initialiser", "variable %d declared with initialiser 0 holds %d; after the loads and %d bump() calls so far it can hold %v", id, v, run.S, keysOf(run.zvals[id]))
+		}
+	case "sa":
+		if v != run.S {
+			run.fail("C17/keep", "any-typed-state-var", "package variable SA (declared `var SA any`, no initialiser) holds %s, the script last assigned it %d", describe(val), run.S)
+		}
 	case "st":
 		if v != run.S {
 			run.fail("C17/keep", "state-var", "package variable S declared without initialiser holds %d, the script assigned it %d times", v, run.S)
@@ -824,6 +879,15 @@ func (run *liveRun) obs(kind string, id int, val goatlang.Value) {
 			run.fail("C17/keep", "init-counter", "init counter of package %d is %d, but init was served between %d and %d times", id, v, run.nLo[id], run.nHi[id])
 		}
 	}
+}
+
+func keysOf(m map[int]bool) []int {
+	var ks []int
+	for k := range m {
+		ks = append(ks, k)
+	}
+	sort.Ints(ks)
+	return ks
 }
 
 // checkComplete: a probe must have reported every entity, and every captured
@@ -844,6 +908,8 @@ func (run *liveRun) checkComplete() {
 			need(fmt.Sprintf("d%d", e.ID), "function")
 		case "ivar":
 			need(fmt.Sprintf("iv%d", e.ID), "variable")
+		case "zvar":
+			need(fmt.Sprintf("zv%d", e.ID), "variable")
 		case "method":
 			if run.instUp {
 				need(fmt.Sprintf("im%d", e.ID), "instance")
